@@ -150,29 +150,60 @@ Definition parse_replay (s : bytes) : presult :=
 
 (** * STORE (store.rs)
 
-    [balanced_braces = $( "{" (balanced_braces() / (!"}" [_]))* "}" )].  A nested
-    [balanced_braces] can fail only by reaching the end of the input, and then the enclosing
-    loop, re-scanning the same text one level up, reaches the end too; so the rule matches
-    exactly when a depth counter started at the first '{' returns to zero, and it ends there.
-    The model is that counter (linear); the peg code re-scans (exponential in the number of
-    unclosed braces — a finding of the correspondence run).  Braces inside JSON strings
-    are counted, as in the grammar. *)
-Fixpoint brace_scan (s : bytes) (depth : nat) (acc : bytes) : option (bytes * bytes) :=
+    [balanced_braces = $( '{' (balanced_braces() / json_string() / (!'}' [_]))* '}' )] with
+    [json_string = DQ ('\\' [_] / (![DQ | '\\'] [_]))* DQ] (DQ = the double quote; since fced25a; before it the
+    [json_string] alternative was absent — [Params.store_skips_strings], read from the Rust text).
+    A nested [balanced_braces] can fail only by reaching the end of the input, and then the
+    enclosing loop, re-scanning the same text one level up, reaches the end too (every rule is a
+    function of the position); so the rule matches exactly when a depth counter started at the
+    first '{' returns to zero, and it ends there.  A double quote that starts a terminated string literal
+    (backslash escapes one character) skips the literal; an unterminated one is an ordinary
+    character.  The model is that counter (linear); the peg code re-scans (exponential in the
+    number of unclosed braces - a finding of the correspondence run). *)
+
+(** after an opening quote: the rest after the closing quote, if there is one *)
+Fixpoint json_str_end (s : bytes) : option bytes :=
   match s with
   | [] => None
   | c :: r =>
-      if c =? 123 then brace_scan r (S depth) (c :: acc)
-      else if c =? 125 then
-        match depth with
-        | O => Some (frev (c :: acc), r)
-        | S d => brace_scan r d (c :: acc)
-        end
-      else brace_scan r depth (c :: acc)
+      if c =? 34 then Some r
+      else if c =? 92 then match r with [] => None | _ :: r' => json_str_end r' end
+      else json_str_end r
   end.
+
+(** after the first '{': the rest after the brace that closes it *)
+Fixpoint brace_end (fuel : nat) (s : bytes) (depth : nat) : option bytes :=
+  match fuel with
+  | O => None
+  | S f =>
+      match s with
+      | [] => None
+      | c :: r =>
+          if c =? 123 then brace_end f r (S depth)
+          else if c =? 125 then
+            match depth with
+            | O => Some r
+            | S d => brace_end f r d
+            end
+          else if store_skips_strings && (c =? 34) then
+            match json_str_end r with
+            | Some r' => brace_end f r' depth
+            | None => brace_end f r depth
+            end
+          else brace_end f r depth
+      end
+  end.
+
 Definition balanced_braces (s : bytes) : option (bytes * bytes) :=
   match s with
-  | 123 :: r => brace_scan r 0 [123]
-  | _ => None
+  | c :: r =>
+      if c =? 123 then
+        match brace_end (length r) r 0 with
+        | Some rest => Some (firstn (length s - length rest) s, rest)
+        | None => None
+        end
+      else None
+  | [] => None
   end.
 
 Definition store_rule : P command :=
